@@ -197,3 +197,117 @@ neutral("c06-handler-as-name", ["C06", "C04"], "builtins.py",
         "        return await iterator.__anext__()\n    except StopAsyncIteration as _stop:\n")
 neutral("c06-message-change", ["C06"], "itertools.py",
         '"accumulate() of empty sequence with no initial value"', '"accumulate(): empty iterable and no initial"')
+
+# --------------------------------------------------------------------------- C11
+CACHED_POST = ("            if key in self.__cache:\n                pass\n"
+               "            # the cache is filled already\n"
+               "            # push the new content to the current root and rotate the list once\n"
+               "            elif len(self.__cache) >= self.__maxsize:\n")
+mutant("c11-gt-for-ge", "C11", "_lrucache.py",
+       "            elif len(self.__cache) >= self.__maxsize:\n",
+       "            elif len(self.__cache) > self.__maxsize:\n",
+       rule="R11.3", unit="_lrucache.CachedLRUAsyncCallable.__call__")
+mutant("c11-stale-fullness", "C11", "_lrucache.py",
+       "            self.__misses += 1\n            result = await self.__wrapped__(*args, **kwargs)\n            # function finished early for another call with the same arguments\n            # the cache has been updated already, do nothing to it\n            if key in self.__cache:\n                pass\n            # the cache is filled already\n            # push the new content to the current root and rotate the list once\n            elif len(self.__cache) >= self.__maxsize:\n",
+       "            self.__misses += 1\n            full = len(self.__cache) >= self.__maxsize\n            result = await self.__wrapped__(*args, **kwargs)\n            if key in self.__cache:\n                pass\n            elif full:\n",
+       rule="R11.3", unit="_lrucache.CachedLRUAsyncCallable.__call__")
+mutant("c11-stale-membership", "C11", "_lrucache.py",
+       "            self.__misses += 1\n            result = await self.__wrapped__(*args, **kwargs)\n            # function finished early for another call with the same arguments\n            # the cache has been updated already, do nothing to it\n            if key in self.__cache:\n                pass\n            # the cache is filled already\n            # push the new content to the current root and rotate the list once\n            elif len(self.__cache) >= self.__maxsize:\n                self.__cache.popitem(last=False)\n                self.__cache[key] = result\n",
+       "            self.__misses += 1\n            room = len(self.__cache) < self.__maxsize\n            result = await self.__wrapped__(*args, **kwargs)\n            if room:\n                self.__cache[key] = result\n            elif key in self.__cache:\n                pass\n            elif len(self.__cache) >= self.__maxsize:\n                self.__cache.popitem(last=False)\n                self.__cache[key] = result\n",
+       rule="R11.3", unit="_lrucache.CachedLRUAsyncCallable.__call__")
+mutant("c11-placeholder-before-await", "C11", "_lrucache.py",
+       "        except KeyError:\n            self.__misses += 1\n            result = await self.__wrapped__(*args, **kwargs)\n            # function finished early for another call with the same arguments\n            # the cache has been updated already, do nothing to it\n            if key not in self.__cache:\n",
+       "        except KeyError:\n            self.__misses += 1\n            self.__cache[key] = None\n            result = await self.__wrapped__(*args, **kwargs)\n            if True:\n",
+       rule="R11.4", unit="_lrucache.MemoizedLRUAsyncCallable.__call__")
+mutant("c11-finally-stores", "C11", "_lrucache.py",
+       "            self.__misses += 1\n            result = await self.__wrapped__(*args, **kwargs)\n            # function finished early for another call with the same arguments\n            # the cache has been updated already, do nothing to it\n            if key not in self.__cache:\n                self.__cache[key] = result\n            return result\n",
+       "            self.__misses += 1\n            result = None\n            try:\n                result = await self.__wrapped__(*args, **kwargs)\n            finally:\n                if key not in self.__cache:\n                    self.__cache[key] = result\n            return result\n",
+       rule="R11.4", unit="_lrucache.MemoizedLRUAsyncCallable.__call__")
+mutant("c11-miss-counted-after-await", "C11", "_lrucache.py",
+       "        except KeyError:\n            self.__misses += 1\n            result = await self.__wrapped__(*args, **kwargs)\n            # function finished early for another call with the same arguments\n            # the cache has been updated already, do nothing to it\n            if key not in self.__cache:\n",
+       "        except KeyError:\n            result = await self.__wrapped__(*args, **kwargs)\n            self.__misses += 1\n            if key not in self.__cache:\n",
+       rule="R11.5", unit="_lrucache.MemoizedLRUAsyncCallable.__call__")
+mutant("c11-miss-uncounted-on-error", "C11", "_lrucache.py",
+       "        self.__misses += 1\n        return await self.__wrapped__(*args, **kwargs)\n",
+       "        try:\n            return await self.__wrapped__(*args, **kwargs)\n        except BaseException:\n            raise\n        finally:\n            self.__misses += 1\n",
+       rule="R11", unit="_lrucache.UncachedLRUAsyncCallable.__call__")
+mutant("c11-hit-not-counted", "C11", "_lrucache.py",
+       "            self.__cache.move_to_end(key, last=True)\n            self.__hits += 1\n            return result\n",
+       "            self.__cache.move_to_end(key, last=True)\n            return result\n",
+       rule="R11.5", unit="_lrucache.CachedLRUAsyncCallable.__call__")
+mutant("c11-retry-second-await", "C11", "_lrucache.py",
+       "            self.__misses += 1\n            result = await self.__wrapped__(*args, **kwargs)\n            # function finished early for another call with the same arguments\n            # the cache has been updated already, do nothing to it\n            if key not in self.__cache:\n",
+       "            self.__misses += 1\n            result = await self.__wrapped__(*args, **kwargs)\n            if result is None:\n                result = await self.__wrapped__(*args, **kwargs)\n            if key not in self.__cache:\n",
+       rule="R11.1", unit="_lrucache.MemoizedLRUAsyncCallable.__call__")
+mutant("c11-evict-without-store", "C11", "_lrucache.py",
+       "                self.__cache.popitem(last=False)\n                self.__cache[key] = result\n",
+       "                self.__cache.popitem(last=False)\n",
+       rule="R11.3", unit="_lrucache.CachedLRUAsyncCallable.__call__")
+mutant("c11-no-evict-when-full", "C11", "_lrucache.py",
+       "                self.__cache.popitem(last=False)\n                self.__cache[key] = result\n",
+       "                self.__cache[key] = result\n",
+       rule="R11.3", unit="_lrucache.CachedLRUAsyncCallable.__call__")
+neutral("c11-recheck-spelled-not-in", ["C11", "C10"], "_lrucache.py",
+        "            if key in self.__cache:\n                pass\n            # the cache is filled already\n            # push the new content to the current root and rotate the list once\n            elif len(self.__cache) >= self.__maxsize:\n                self.__cache.popitem(last=False)\n                self.__cache[key] = result\n            # the cache still has room\n            # insert the new element at the back\n            else:\n                self.__cache[key] = result\n            return result\n",
+        "            if key not in self.__cache:\n                if self.__maxsize <= len(self.__cache):\n                    self.__cache.popitem(last=False)\n                self.__cache[key] = result\n            return result\n")
+
+# --------------------------------------------------------------------------- C10
+mutant("c10-fast-types-float", "C10", "_lrucache.py",
+       "fast_types: Tuple[type, ...] = (int, str),", "fast_types: Tuple[type, ...] = (int, str, float),",
+       rule="R10.1", unit="_lrucache.CallKey.from_call")
+mutant("c10-fast-path-isinstance", "C10", "_lrucache.py",
+       "elif len(key) == 1 and type(key[0]) in fast_types:", "elif len(key) == 1 and isinstance(key[0], fast_types):",
+       rule="R10.1")
+mutant("c10-typed-ignores-kwargs", "C10", "_lrucache.py",
+       "                else (*map(type, args), *map(type, kwds.values()))\n", "                else (*map(type, args),)\n",
+       rule="R10.1")
+mutant("c10-marker-is-none", "C10", "_lrucache.py",
+       "key = args if not kwds else (*args, kwarg_sentinel, *kwds.items())",
+       "key = args if not kwds else (*args, None, *kwds.items())", rule="R10.1")
+mutant("c10-no-marker", "C10", "_lrucache.py",
+       "key = args if not kwds else (*args, kwarg_sentinel, *kwds.items())",
+       "key = args if not kwds else (*args, *kwds.items())", rule="R10.1")
+mutant("c10-sorted-kwargs", "C10", "_lrucache.py",
+       "key = args if not kwds else (*args, kwarg_sentinel, *kwds.items())",
+       "key = args if not kwds else (*args, kwarg_sentinel, *sorted(kwds.items()))", rule="R10.1")
+mutant("c10-fast-path-when-typed", "C10", "_lrucache.py",
+       "        elif len(key) == 1 and type(key[0]) in fast_types:\n            return key[0]  # type: ignore\n        return cls(key)\n",
+       "        if len(args) == 1 and not kwds and type(args[0]) in fast_types:\n            return args[0]  # type: ignore\n        return cls(key)\n",
+       rule="R10.1")
+mutant("c10-callkey-eq-identity", "C10", "_lrucache.py",
+       "return type(self) is type(other) and self.values == other.values  # type: ignore",
+       "return type(self) is type(other) and self.values is other.values  # type: ignore", rule="R10.1")
+mutant("c10-refresh-wrong-end", "C10", "_lrucache.py",
+       "self.__cache.move_to_end(key, last=True)", "self.__cache.move_to_end(key, last=False)", rule="R10.2")
+mutant("c10-evict-newest", "C10", "_lrucache.py",
+       "self.__cache.popitem(last=False)", "self.__cache.popitem()", rule="R10.2")
+mutant("c10-hit-no-refresh", "C10", "_lrucache.py",
+       "            self.__cache.move_to_end(key, last=True)\n            self.__hits += 1\n",
+       "            self.__hits += 1\n", rule="R10.2")
+mutant("c10-clear-keeps-hits", "C10", "_lrucache.py",
+       "    def cache_clear(self) -> None:\n        self.__hits = 0\n        self.__misses = 0\n        self.__cache.clear()\n\n    def cache_discard(self, *args: Any, **kwargs: Any) -> None:\n        self.__cache.pop(CallKey.from_call(args, kwargs, typed=self.__typed), None)\n\n\nclass CachedLRUAsyncCallable",
+       "    def cache_clear(self) -> None:\n        self.__misses = 0\n        self.__cache.clear()\n\n    def cache_discard(self, *args: Any, **kwargs: Any) -> None:\n        self.__cache.pop(CallKey.from_call(args, kwargs, typed=self.__typed), None)\n\n\nclass CachedLRUAsyncCallable",
+       rule="R10.3", unit="_lrucache.MemoizedLRUAsyncCallable.cache_clear")
+mutant("c10-info-swapped", "C10", "_lrucache.py",
+       "return CacheInfo(self.__hits, self.__misses, None, len(self.__cache))",
+       "return CacheInfo(self.__misses, self.__hits, None, len(self.__cache))", rule="R10.6")
+mutant("c10-negative-not-normalised", "C10", "_lrucache.py",
+       "        maxsize = 0 if maxsize < 0 else maxsize\n", "        maxsize = maxsize\n", rule="R10.4")
+mutant("c10-bare-default-256", "C10", "_lrucache.py",
+       "CachedLRUAsyncCallable(cast(AC, maxsize), typed, 128)", "CachedLRUAsyncCallable(cast(AC, maxsize), typed, 256)",
+       rule="R10.4")
+mutant("c10-zero-is-bounded", "C10", "_lrucache.py",
+       "        elif maxsize == 0:\n", "        elif maxsize < 0:\n", rule="R10.4")
+mutant("c10-discard-untyped-key", "C10", "_lrucache.py",
+       "    def cache_discard(self, *args: Any, **kwargs: Any) -> None:\n        self.__cache.pop(CallKey.from_call(args, kwargs, typed=self.__typed), None)\n\n\nclass CachedLRUAsyncCallable",
+       "    def cache_discard(self, *args: Any, **kwargs: Any) -> None:\n        self.__cache.pop(CallKey.from_call(args, kwargs, typed=False), None)\n\n\nclass CachedLRUAsyncCallable",
+       rule="R10.5")
+mutant("c10-bound-discard-forgets-self", "C10", "_lrucache.py",
+       "return self._lru.cache_discard(self.__self__, *args, **kwargs)", "return self._lru.cache_discard(*args, **kwargs)",
+       rule="R10.5")
+mutant("c10-cache-is-bounded", "C10", "functools.py",
+       "return lru_cache(maxsize=None)(user_function)", "return lru_cache(maxsize=128)(user_function)", rule="R10.4")
+mutant("c10-error-cached", "C10", "_lrucache.py",
+       "            self.__misses += 1\n            result = await self.__wrapped__(*args, **kwargs)\n            # function finished early for another call with the same arguments\n            # the cache has been updated already, do nothing to it\n            if key not in self.__cache:\n                self.__cache[key] = result\n            return result\n",
+       "            self.__misses += 1\n            try:\n                result = await self.__wrapped__(*args, **kwargs)\n            except Exception as exc:\n                result = exc\n            if key not in self.__cache:\n                self.__cache[key] = result\n            return result\n",
+       rule="R10.6")
